@@ -78,6 +78,12 @@ func (t *baseTestSuffrageStateBuilder) prepare(point base.Point, previous base.S
 	proof, err := tr.Proof(newstate.Hash().String())
 	t.NoError(err)
 
+	// NOTE the block map should commit to the states tree
+	manifest := blockMap.Manifest().(base.DummyManifest)
+	manifest.SetStatesTree(tr.Root())
+	blockMap.SetManifest(manifest)
+	t.NoError(blockMap.Sign(t.Local.Address(), t.Local.Privatekey(), t.LocalParams.NetworkID()))
+
 	return isaacblock.NewSuffrageProof(blockMap, newstate, proof)
 }
 
